@@ -52,6 +52,7 @@ type HookPlan struct {
 	Status    int       `json:"status,omitempty"`  // WriteHeader(status) when > 0
 	Headers   [][2]string `json:"headers,omitempty"` // set on w.Header()
 	WriteBody string    `json:"write_body,omitempty"` // written with w.Write when non-empty
+	WriteVia  string    `json:"write_via,omitempty"`  // "" = w.Write, "string" = io.WriteString, "copy" = io.Copy from a strings.Reader
 	// StatusOnlyFor: when set, the hook calls WriteHeader(Status) only for errors of these
 	// sources (op note source=...), e.g. a hook that answers 404 for NotFoundError only.
 	StatusOnlyFor []string `json:"status_only_for,omitempty"`
